@@ -32,20 +32,39 @@ pub(crate) fn wl_step_family(gate: &str) -> String {
     }
     out
 }
+#[cfg(descriptive_gate)]
 vmod!(c10);
 #[cfg(not(feature = "shuttle"))]
 vmod!(wl);
 #[cfg(not(feature = "shuttle"))]
 vmod!(c01);
 #[cfg(not(feature = "shuttle"))]
+#[cfg(descriptive_gate)]
 vmod!(c02);
 #[cfg(not(feature = "shuttle"))]
+#[cfg(descriptive_gate)]
 vmod!(c05);
 #[cfg(not(feature = "shuttle"))]
+#[cfg(descriptive_gate)]
 vmod!(c06);
 #[cfg(not(feature = "shuttle"))]
+#[cfg(descriptive_gate)]
 vmod!(c11);
 #[cfg(not(feature = "shuttle"))]
+#[cfg(descriptive_gate)]
 vmod!(c04);
+#[cfg(descriptive_gate)]
 vmod!(c15);
+#[cfg(descriptive_gate)]
 vmod!(c17);
+
+#[cfg(descriptive_gate)]
+vmod!(c08);
+#[cfg(descriptive_gate)]
+vmod!(c09);
+#[cfg(not(feature = "shuttle"))]
+#[cfg(descriptive_gate)]
+vmod!(c20);
+#[cfg(not(feature = "shuttle"))]
+#[cfg(descriptive_gate)]
+vmod!(c07);
